@@ -95,7 +95,7 @@ def brute_reproduce(text, widths, delimiter, rows):
 
 for widths in ([1], [2], [1, 1]):
     total = sum(widths)
-    for delimiter in ("any", "\n", "\r\n", None):
+    for delimiter in ("any", "\n", "\r", "\r\n", None):
         for length in range(0, 6):
             for letters in itertools.product("a\r\n", repeat=length):
                 text = "".join(letters)
@@ -116,6 +116,14 @@ for widths in ([1], [2], [1, 1]):
                             position += w
                         split_rows.append(cellsplit)
                     check("fixedspec.canonical->reproduce", fixedspec.rows_reproduce(text, widths, delimiter, split_rows) and brute_reproduce(text, widths, delimiter, split_rows), (text, widths, delimiter))
+                # well_formed against an independent formulation (a regular expression) and against the greedy automaton
+                if delimiter != "any":
+                    separator = "" if delimiter is None else re.escape(delimiter)
+                    by_regex = re.fullmatch("(?:.{%d}%s)*(?:.{%d})?" % (total, separator, total), text, re.S) is not None
+                    check("fixedspec.well_formed", fixedspec.well_formed(text, total, delimiter) == by_regex, (text, widths, delimiter))
+                    check("fixedspec.well_formed->greedy alive", not fixedspec.well_formed(text, total, delimiter) or state[0] != "dead", (text, widths, delimiter))
+                else:
+                    check("fixedspec.well_formed(any)", fixedspec.well_formed(text, total, delimiter) == canonical, (text, widths, delimiter))
                 for candidate in ([], [[text[:w] for w in widths]] if len(text) >= total else []):
                     check("fixedspec.rows_reproduce", fixedspec.rows_reproduce(text, widths, delimiter, candidate) == brute_reproduce(text, widths, delimiter, candidate), (text, widths, delimiter, candidate))
 
